@@ -264,7 +264,8 @@ func (c *Classifier) getRowAndColumnCount(t *html.Node) (int, int) {
 	for i := 0; i < len(trs); i++ {
 		strRowSpan := dom.GetAttribute(trs[i], "rowspan")
 		rowSpan, _ := strconv.Atoi(strRowSpan)
-		if rowSpan == 0 {
+		if rowSpan <= 0 {
+			// Not a valid span
 			rowSpan = 1
 		}
 		rows += rowSpan
@@ -276,7 +277,8 @@ func (c *Classifier) getRowAndColumnCount(t *html.Node) (int, int) {
 		for j := 0; j < len(cells); j++ {
 			strColSpan := dom.GetAttribute(cells[j], "colspan")
 			colSpan, _ := strconv.Atoi(strColSpan)
-			if colSpan == 0 {
+			if colSpan <= 0 {
+				// Not a valid span
 				colSpan = 1
 			}
 			columnsInThisRow += colSpan
